@@ -274,11 +274,40 @@ def corners_of(tri, rows3):
     return out, has_n, len(tri.texcoords)
 
 
-def whole_assignments(lay, triset, tris):
+ACCESS_FORMS = ['getitem', 'getitem_rev', 'iter', 'method', 'shapes', 'zip', 'stream']
+
+
+def collect(prim, form, method):
+    """The elements (polygons / triangles) of a primitive, obtained in one of the ways a caller can:
+    prim[i] in ascending or descending order, list(prim) (legacy iteration), list(prim.<method>()),
+    list(prim.shapes()), two generators advanced in lockstep - all materialised BEFORE any element is
+    used - or a generator consumed one element at a time ('stream')."""
+    n = len(prim)
+    gen = getattr(prim, method, None) if form in ('method', 'stream', 'zip') else None
+    if form == 'shapes' or (form in ('zip',) and gen is None):
+        gen = getattr(prim, 'shapes', None)
+    if form == 'getitem':
+        return [prim[i] for i in range(n)]
+    if form == 'getitem_rev':
+        back = [prim[i] for i in reversed(range(n))]
+        return back[::-1]
+    if form == 'iter' or gen is None:
+        return list(prim) if n else []
+    if form == 'zip':
+        pairs = list(zip(gen(), gen()))
+        return [a for a, b in pairs]
+    if form == 'stream':
+        return gen()
+    return list(gen())
+
+
+def whole_assignments(lay, triset, tris, form='getitem'):
     """assignments that explain every corner of every triangle of a triangle set whose index rows are `tris`"""
     cands = None
-    for ti in range(len(tris)):
-        cs, has_n, ntex = corners_of(triset[ti], tris[ti])
+    for ti, tri_obj in enumerate(collect(triset, form, 'triangles')):
+        if ti >= len(tris):
+            return [], ti
+        cs, has_n, ntex = corners_of(tri_obj, tris[ti])
         if cands is None:
             cands = lay.assignments(has_n, ntex)
         cands = [a for a in cands if all(lay.explains(a, c) for c in cs)]
@@ -340,6 +369,8 @@ def check_bound(bound, case, lay, tris, groups, have_pp, why):
         return why('bound', type(bound.error).__name__, 'triangles through the scene raised %r' % (bound.error,))
     if len(bound.prims) != len(bound.insts):
         return why('bound', 'instances', '%d bound geometries for %d scene instances' % (len(bound.prims), len(bound.insts)))
+    pform = (case.get('access') or {}).get('poly', 'getitem')
+    tform = (case.get('access') or {}).get('tri', 'getitem')
     tb = lay.tb
     all_finite = all(finite(p_) for p_ in tb['pos']) and all(finite(x) for t_ in tb['nrm'] for x in t_)
     voff = lay.off(lay.v)
@@ -350,7 +381,7 @@ def check_bound(bound, case, lay, tris, groups, have_pp, why):
             if bidx != tris:
                 return why('bound', 'index', 'instance %d: bound triangle set has index %r, unbound %r' % (i, bidx, tris))
             whole = []
-            for ti, tr in enumerate(bts):
+            for ti, tr in enumerate(collect(bts, tform, 'triangles')):
                 cs = []
                 for c in range(3):
                     src = lay.data(lay.v, tris[ti][c][voff])
@@ -365,9 +396,14 @@ def check_bound(bound, case, lay, tris, groups, have_pp, why):
             if have_pp and kind in ('polylist', 'polygons') and all_finite:
                 bp = bound.prims[i]
                 pos = 0
-                for pi in range(len(bp)):
+                bpolys = collect(bp, pform, 'polygons')
+                if pform != 'stream':
+                    need_n = len(bpolys)
+                    if need_n != len(groups):
+                        return why('bound', 'polygons', 'instance %d: %d polygons handed out for %d' % (i, need_n, len(groups)))
+                for pi, bpoly in enumerate(bpolys):
                     mine = []
-                    for tr in bp[pi].triangles():
+                    for tr in bpoly.triangles():
                         has_n = tr.normal_indices is not None
                         mine.append([corner_key(tr.indices[c], tr.vertices[c], tr.normals[c] if has_n else None)
                                      for c in range(3)])
@@ -420,6 +456,8 @@ def run_case(case):
         return out
     lay = Layout(case)
     v, nn, t = offsets_of(case)
+    pform = (case.get('access') or {}).get('poly', 'getitem')
+    tform = (case.get('access') or {}).get('tri', 'getitem')
     bound = Bound(doc, case)
     order = case.get('order') or ['u'] + list(range(len(bound.insts)))
     for item in order[:order.index('u')] if 'u' in order else []:
@@ -438,7 +476,7 @@ def run_case(case):
         elif Counter(map(canon, got)) != Counter(map(canon, exp)):
             why('winding', 'index', 'triangles %r, expected (up to order and rotation) %r' % (got, exp))
         else:
-            cands, at = whole_assignments(lay, prim, out['index'])
+            cands, at = whole_assignments(lay, prim, out['index'], tform)
             if got and not cands:
                 why('attached', 'Triangle', 'triangle %d: the delivered vertex/normal/texcoord indices or data '
                     'are not those of its rows %r under any assignment of inputs' % (at, got[at]))
@@ -492,7 +530,7 @@ def run_case(case):
                           % (pi, vc, part, g))
                 break
         if not bad and got:
-            whole, at = whole_assignments(lay, ts, out['tri_index'])
+            whole, at = whole_assignments(lay, ts, out['tri_index'], tform)
             if not whole:
                 bad = why('attached', 'triangleset', 'triangle %d: the delivered vertex/normal/texcoord indices or '
                           'data are not those of its rows %r under any assignment of inputs' % (at, got[at]))
@@ -502,8 +540,7 @@ def run_case(case):
         pcands = None
         try:
             pp = []
-            for pi in range(len(prim)):
-                poly = prim[pi]
+            for pi, poly in enumerate(collect(prim, pform, 'polygons')):
                 tris = []
                 for tr in poly.triangles():
                     cs, has_n, ntex = corners_of(tr, None)
